@@ -112,6 +112,35 @@ PROPS = {
         "level_note": "Trusted: abstract Store contract of the wrapped store, Graph/ConjunctiveGraph contracts (C01/C02), "
                       "array-list model of Python lists (append/remove/iteration), locks as no-ops.",
     },
+    "C19": {
+        "modules": ["contracts.c19_collection"],
+        "claim_level": "other",
+        "design_ref": "6.19",
+        "technique": TECH,
+        "clauses_decided": [
+            "Graph.value / Graph.objects (the read primitives Collection uses): proved against the graph view",
+            "Collection._get_container(i): the i-th cell of a well-formed chain (rdf:nil at position len, None beyond), "
+            "with termination (variant) - proved by loop invariant over the ghost cell sequence",
+            "Collection.__getitem__: c[k] == items[k] for 0 <= k < len, for every member incl. falsy ones; IndexError "
+            "iff k >= len (proved)",
+            "Collection.__setitem__ (0 <= k < len): items' = items[k := v], chain stays well-formed (proved)",
+            "Collection._end: last cell, terminates on well-formed chains; Collection.append: items' = items + [x] "
+            "with one fresh cell, chain stays well-formed, no orphan (proved)",
+        ],
+        "clauses_not_decided": [
+            "__len__/__iter__ (Graph.items ordered traversal), index, __delitem__, clear, __iadd__: bounded stand-in "
+            "only so far (ordered-yield contracts not yet written)",
+            "negative indices (c[-1]) and item assignment at index == len: known differences from list "
+            "(known finding C19-setitem-at-len); reads on cyclic/broken chains: bounded (all chains <= 3 cells)",
+        ],
+        "explanation": "Ghost sequences cells/items and the well-formedness predicate WF tie the rdf:first/rdf:rest "
+                       "triples to the Python list; each proved method preserves WF and has the list effect.",
+        "assumptions": A_COMMON,
+        "level_text": "Deductive proof (loop invariants over a ghost cell sequence) of the read path and of "
+                      "append/setitem; the remaining mutators and the exact list-equivalence over histories by "
+                      "exhaustive small scope (bounded), hence category 'other'.",
+        "level_note": "Trusted: Graph-level contracts (proved in C01), freshness of BNode(), PyVC/z3/cvc5.",
+    },
     "C17": {
         "modules": ["contracts.c17_store"],
         "claim_level": "proof",
